@@ -41,6 +41,18 @@ CHECKS = {
              text="Every builtin x arity 0..4 x ~110 argument values of every kind (boundary numbers, malformed format strings, live file/pcap/packet handles), builtin chains, recursion-depth ladders around the frame and stack limits, many locals/globals/arguments, ill-typed generated programs, exit statuses and 40 filter programs end to end in both profiles; held on everything observed.",
              note="Exclusions of the property are honoured (no allocation beyond the machine, no self-containing containers). sleep with huge/negative arguments is not judged.",
              design="6/C08"),
+ "C04": dict(level="exploration", technique="differential monitor against a lexically scoped definitional evaluator, with a generator concentrated on binding structure (shadowing, sibling blocks, dead names, closures in blocks/loops, captured writes)",
+             text="3e3-1.2e5 random programs with shadowing at every depth, re-used names in sibling blocks, closures created in blocks and loops and called after their frame is gone, writes to captured variables and globals; uses of names whose block has ended must be compile errors; plus 21 hand-written binding scenarios. Held on everything observed.",
+             note="Trusted: gen.py's evaluator (lexical resolution, capture by value at creation, globals by reference) and its static well-formedness check. `let a = <expr mentioning a>` is not generated.",
+             design="6/C04"),
+ "C05": dict(level="exploration", technique="table oracle + differential monitor: exhaustive scrutinee x pattern tables and if/else-if chains run on the real VM and compared with the pattern/truthiness model; generated nestings of if/match/labelled loops compared with the evaluator",
+             text="Every literal, alternative list and range a..b / a..=b (incl. empty and inverted) over small integer/char/byte/string domains x every scrutinee of the domain and of other kinds, with and without default, overlapping arms, scrutinee evaluated once, mixed-type arms rejected; if/else-if/else chains over 23 truthiness representatives; 2.5e3-1e5 generated control-flow programs. Held apart from KF-C05-1.",
+             note="Trusted: the pattern model in gen.py (equality of C09, range = lo <= v < / <= hi within one kind) and the truthiness table of C06.",
+             design="6/C05"),
+ "C07": dict(level="exploration", technique="online invariant monitor on the VM step hook: per-program-point operand-stack height (sp-bp constant per (function, ip)), height 0 at every top-level statement boundary (compiler hook), no 'Stack overflow!' without recursion",
+             text="5 loop shapes x 27 body shapes x break/continue/labelled x conditions x {3, 100, 10^4} iterations and 1.5e3-6e4 recursion-free generated programs, 5e7+ VM steps monitored per quick run; held on everything observed apart from KF-C07-1 (break/continue with operands pending).",
+             note="Trusted: the probe's RunMonitor (updated in the hook callback, same thread as the VM), the guarded step and top-level-statement hooks. Per-statement balance inside value-producing blocks is deliberately not asserted.",
+             design="6/C07"),
 }
 
 PENDING_REASON = "check not built yet in this session (design in DESIGN.md section 6); not claimed until its monitor runs silently on the unchanged tree"
